@@ -56,6 +56,12 @@ def run_task(prog, tid, params, tier):
             m = res.ctx.model()
             return {'status': 'violation', 'role': 'panic', 'detail': 'Packet::parse panics: ' + res.msg,
                     'cex': {'entry': 'packet_parse', 'bytes': X.model_bytes(m, syms), 'expect': {'outcome': 'panic'}}}
+        if res.kind == 'bound':
+            # a section loop consumes at least 5 bytes per entry and L <= 25: 40 iterations of any loop cannot happen on a run
+            # that makes progress (Name::parse is replaced by its contract beyond the header) - replayed under the watchdog
+            m = res.ctx.model()
+            return {'status': 'violation', 'role': 'hang', 'detail': 'Packet::parse does not terminate within the loop bound: ' + res.msg,
+                    'cex': {'entry': 'packet_parse', 'bytes': X.model_bytes(m, syms), 'expect': {'outcome': 'hang'}}}
         if res.kind != 'return':
             return None
         covers['ok' if res.value.var == 'Ok' else 'err'] += 1
